@@ -557,7 +557,10 @@ class DictArithmetic(dict):
         """
         if isinstance(other, dict):
             items, oitems = tuple(self.items()), tuple(other.items())
-            self.clear()
+            # only remove the terms; self.clear() would also reset what
+            # subclasses keep next to the terms (eg. the recorded constraints
+            # and the ancilla counter of a PCBO).
+            dict.clear(self)
             for k, v in items:
                 kp = k if isinstance(k, tuple) else (k,)
                 for ko, vo in oitems:
